@@ -138,9 +138,10 @@ func (o *histogramOperator) processInputSeries(vectors []model.StepVector) ([]mo
 			if len(stepBuckets) == 0 {
 				continue
 			}
-			// If there is only bucket or if we are after how many
-			// scalar points we have then it needs to be NaN.
-			if len(stepBuckets) == 1 || stepIndex >= len(o.scalarPoints) {
+			// If we are after how many scalar points we have then it needs to be NaN.
+			// A single bucket is left to bucketQuantile: it yields NaN as well, except
+			// for a quantile outside [0, 1], which is -Inf or +Inf whatever the buckets.
+			if stepIndex >= len(o.scalarPoints) {
 				step.SampleIDs = append(step.SampleIDs, uint64(i))
 				step.Samples = append(step.Samples, math.NaN())
 				continue
